@@ -113,7 +113,7 @@ def build(case: dict[str, Any]):
                release=dict(columns=["release_time", "X", "Y", "Z"], rows=rows, header=True, continuous=True, freq=freq * dt),
                state=dict(instance_variables=dict(age="float", weight="float", temp="float"), particle_variables=dict(release_time="time") if pvars else {},
                           default_values=dict(age=0.0, weight=1.0, temp=0.0)),
-               ibm=dict(module=C.REC_IBM, age=True, lifetime=lifetime, weight_from="temp", log=False),
+               ibm=dict(module=C.REC_IBM, age=True, lifetime=lifetime, weight_from="temp", weight_from_position=True, log=False),
                output=dict(period=P * dt, numrec=numrec, instance=dict(pid="i4", X="f8", Y="f8", Z="f8", age="f8", weight="f8", temp="f8"), particle=dict(release_time="f8") if pvars else {}))
     return dict(world=world, run=run), dict(P=P, numrec=numrec, ns=ns, dt=dt, scheme=scheme, store=store, freq=freq, lifetime=lifetime, pvars=pvars, offgrid=bool(offgrid))
 
